@@ -945,6 +945,10 @@ impl FunctionCompiler<'_> {
                 });
 
                 if ty.is_zero_sized() {
+                    // there is nothing to store, but the items still have to be evaluated
+                    for item in items.iter() {
+                        self.compile_expr(*item);
+                    }
                     return None;
                 }
 
@@ -962,6 +966,10 @@ impl FunctionCompiler<'_> {
             }
             hir::Expr::Index { source, index } => {
                 if self.tys[self.loc][expr].is_zero_sized() {
+                    // a zero-sized element takes up no memory, but the array and the index are
+                    // still evaluated (they may be blocks with defers and jumps of their own)
+                    self.compile_expr(source);
+                    self.compile_expr(index);
                     return None;
                 }
 
@@ -1971,6 +1979,11 @@ impl FunctionCompiler<'_> {
             }
             hir::Expr::Member { previous, name, .. } => {
                 if self.tys[self.loc][expr].is_zero_sized() {
+                    // a zero-sized member takes up no memory, but what it is a member of is
+                    // still evaluated
+                    if !matches!(*self.tys[self.loc][previous], Ty::File(_)) {
+                        self.compile_expr(previous);
+                    }
                     return None;
                 }
 
